@@ -5,7 +5,6 @@ import (
 	"context"
 	"errors"
 	"fmt"
-	"google.golang.org/protobuf/types/known/sourcecontextpb"
 	"io"
 	"net/http"
 	"net/http/httptest"
@@ -178,6 +177,14 @@ func hreqOp(c *Ctx, op string) {
 		if kind == "unary" {
 			return fmt.Sprintf("pre=run recv=%s end=eof", hx(got[0]))
 		}
+		// C04 on the request side: once the handler's Receive has reported a failure, asking
+		// again does not turn the request stream into one that ended cleanly
+		for _, g := range got {
+			if string(g) == "end-changed" || bytes.HasPrefix(g, []byte("again:")) {
+				c.Fail("term-request-failure-forgotten", op, fmt.Sprintf("recv=%s", hexList(got)), "after Receive reported the end or a failure of the request stream, another Receive delivered a message or changed the verdict")
+				break
+			}
+		}
 		end := "eof"
 		if endErr != nil {
 			end = strconv.Itoa(int(connect.CodeOf(endErr)))
@@ -189,6 +196,28 @@ func hreqOp(c *Ctx, op string) {
 	})
 	if runs > 1 {
 		c.Fail("req-runs-twice", op, strconv.Itoa(runs), "user code ran more than once")
+	}
+	// C09 on a well-formed streaming request: every message of at most `max` bytes is accepted
+	// at every position, whatever the peer announces about the body as a whole
+	if (kind == "client" || kind == "bidi") && sent == "" && tmo == "" && a["ct2"] != "1" && a["tail"] == "eof" && frameBoundary(flat) {
+		var want [][]byte
+		plain := true
+		for rest := flat; len(rest) >= 5; {
+			n := int(rest[1])<<24 | int(rest[2])<<16 | int(rest[3])<<8 | int(rest[4])
+			if rest[0] != 0 || (max > 0 && n > max) || (n > 0 && rest[5] == 0xEE) {
+				plain = false
+				break
+			}
+			want = append(want, rest[5:5+n])
+			rest = rest[5+n:]
+		}
+		if plain {
+			expect := fmt.Sprintf("pre=run recv=%s end=eof", hexList(want))
+			c.Count("req-all-within-limit")
+			if ans != expect {
+				c.Fail("limit-within-rejected", op, ans, fmt.Sprintf("a well-formed request stream of %d plain messages, each within the read limit %d, was not delivered intact", len(want), max))
+			}
+		}
 	}
 	if strings.HasPrefix(ans, "PANIC") {
 		c.Fail("req-panic", op, ans, "serving the request panicked")
@@ -299,63 +328,11 @@ func reqOracle(c *Ctx, op string, a map[string]string, flat []byte, got [][]byte
 	}
 }
 
-// jsonStrictProbe (oracle only, the library's own JSON codec): a JSON payload with a member the
-// request type does not define is an undecodable payload - invalid_argument, user code not run.
-func jsonStrictProbe(c *Ctx) {
-	for _, tc := range []struct{ ct, body string }{
-		{"application/json", `{"fileName":"x","bogus":1}`},
-		{"application/json", `{"fileNam":"x"}`},
-		{"application/grpc-web+json", string(frame(0, []byte(`{"fileName":"x","bogus":1}`)))},
-		{"application/connect+json", string(frame(0, []byte(`{"bogus":true}`)))},
-	} {
-		runs := 0
-		var h http.Handler
-		if tc.ct == "application/connect+json" {
-			h = connect.NewClientStreamHandler("/s/m", func(ctx context.Context, s *connect.ClientStream[sourcecontextpb.SourceContext]) (*connect.Response[sourcecontextpb.SourceContext], error) {
-				for s.Receive() {
-					runs++ // a delivered message
-				}
-				if s.Err() != nil {
-					return nil, s.Err()
-				}
-				return connect.NewResponse(&sourcecontextpb.SourceContext{}), nil
-			})
-		} else {
-			h = connect.NewUnaryHandler("/s/m", func(ctx context.Context, r *connect.Request[sourcecontextpb.SourceContext]) (*connect.Response[sourcecontextpb.SourceContext], error) {
-				runs++
-				return connect.NewResponse(&sourcecontextpb.SourceContext{}), nil
-			})
-		}
-		desc := fmt.Sprintf("Content-Type %s, JSON payload with an unknown member: %q", tc.ct, tc.body)
-		got := safely(func() string {
-			req := httptest.NewRequest(http.MethodPost, "/s/m", strings.NewReader(tc.body))
-			req.ProtoMajor, req.ProtoMinor, req.Proto = 2, 0, "HTTP/2.0"
-			req.Header.Set("Content-Type", tc.ct)
-			rec := httptest.NewRecorder()
-			h.ServeHTTP(rec, req)
-			proto, kind := "connect", "unary"
-			switch tc.ct {
-			case "application/grpc-web+json":
-				proto = "grpcweb"
-			case "application/connect+json":
-				kind = "client"
-			}
-			code, _ := responseErrorCode(proto, kind, rec)
-			return fmt.Sprintf("delivered=%d code=%d", runs, code)
-		})
-		c.Count("json-strict-probe")
-		if got != "delivered=0 code=3" {
-			c.Fail("req-bad-message-delivered", desc, got, "a payload that does not decode into the request type must be rejected as invalid_argument without reaching user code")
-		}
-	}
-}
-
 func streamReq(c *Ctx) {
 	if replayOp != "" {
 		hreqOp(c, replayOp)
 		return
 	}
-	jsonStrictProbe(c)
 	r := c.Rng
 	protos := []string{"connect", "grpc", "grpcweb"}
 	kinds := []string{"client", "bidi", "unary"}
